@@ -453,6 +453,22 @@ def check_reply(ctx, rng):
                 res['viol'].append(('reply-transmitted-after-deadline', 'reply after the lifetime elapsed was transmitted', w))
             if bool(ret) != bool(sent):
                 res['viol'].append((f'reply-return-untruthful:returned={ret!r},sent={bool(sent)}', f'reply returned {ret!r} although the packet was {"" if sent else "not "}sent', w))
+            if should and seq % 2 == 0:
+                # the same callback used again (a second Data for one Interest): before the deadline it is sent and True again; once
+                # the deadline has passed it is not sent and False - the answer is about THIS call
+                n1 = len(face.sent)
+                d2 = bytes(make_data(name + [C(b'more')], MetaInfo(), b'again', DigestSha256Signer()))
+                r2 = reply(d2)
+                s2 = face.sent[n1:]
+                ctx.event('reply-callback-used-twice')
+                if (S.now_ms() < t_arr + eff) and (not r2 or len(s2) != 1):
+                    res['viol'].append((f'second-reply-untruthful:returned={r2!r},sent={len(s2)}', 'a second reply inside the lifetime was not sent / not reported as sent', w))
+                await S.sleep_until_ms(t_arr + eff + 3)
+                n2 = len(face.sent)
+                r3 = reply(d2)
+                s3 = face.sent[n2:]
+                if r3 or s3:
+                    res['viol'].append((f'late-reply-untruthful:returned={r3!r},sent={len(s3)}', 'a further reply after the lifetime was reported as sent / was sent', w))
         # a handler that blocks (computes) past the lifetime without yielding to the loop and then replies: time has passed all the same
         for L, over in ((50, 1), (50, 200), (1000, 5), (100, -20)):
             seq += 1
